@@ -95,9 +95,12 @@ class Origins:
             if len(names) != 2:
                 return None
             kb, vb = ("bound", names[0]), ("bound", names[1])
+        elif len(names) == 1 and not g0[2] and self.keys_comp(src, path) == "keys":
+            # the first generator walks a list that is itself the list of expired keys
+            kb = ("bound", names[0])
         else:
             return None
-        if _expired_filter(tuple(g0[2]), kb) is not True:
+        if self.keys_comp(src, path) != "keys" and _expired_filter(tuple(g0[2]), kb) is not True:
             return None
         elt = t0[2]
         if len(gens) == 1:
